@@ -10,6 +10,8 @@ executes against the real code.
 -/
 import OFV.Proofs.C10Det
 import OFV.Proofs.C10Sz
+import OFV.Proofs.C10SzOp
+import OFV.Proofs.C10Basis
 
 namespace OFV.C10
 open OFV.Model OFV.Model.C10 OFV.Spec OFV.Spec.C10
@@ -51,7 +53,25 @@ theorem number_indices_eigen (tol : Rat) (n k : Nat) (htol : GQ.isSmall tol 1 = 
     simp only [natMul, GQ.one_re, Rat.mul_one] at this
     exact_mod_cast this
 
-/-! ## jw_sz_indices (fixed particle number)
+/-- Matrix level (`restrict_is_projection`, index part): the matrices of `get_sparse_operator`
+index basis states big-endian; the basis state with matrix index `i` is the Spec mask
+`maskOfIndex n i` (bit reversal).  `jw_number_indices(k, n)` lists exactly the matrix indices
+whose basis state is an eigenstate of the number operator with eigenvalue `k`, so
+`M[ix_(I, I)]` is the compression of `M` to that eigenspace, in list order. -/
+theorem number_indices_matrix_sector (tol : Rat) (n k : Nat) (htol : GQ.isSmall tol 1 = false) (i : Nat)
+    (hi : i < 2 ^ n) :
+    i ∈ jwNumberIndices k n ↔
+      melF (numberOperator tol n none 1) (maskOfIndex n i) (maskOfIndex n i) = natMul k 1 := by
+  rw [number_operator_diag tol n 1 htol, if_pos rfl, mem_numberIndices, popcount_maskOfIndex]
+  constructor
+  · rintro ⟨_, h⟩; rw [h]
+  · intro h
+    refine ⟨hi, ?_⟩
+    have := congrArg GQ.re h
+    simp only [natMul, GQ.one_re, Rat.mul_one] at this
+    exact_mod_cast this
+
+/-! ## jw_sz_indices
 
 `occAt n I k` is the occupation of mode `k` read from the big-endian matrix index `I`
 (bit `n - 1 - k`); `MapsOK n sites up down`: the index maps go into the register, are injective
@@ -68,23 +88,35 @@ theorem sz_indices_spec_fixed (sz : Rat) (n ne : Nat) (up down : Nat → Nat) (l
         I < 2 ^ n ∧
         (∀ k, k < n → occAt n I k = true → ∃ s, s < n / 2 ∧ (k = up s ∨ k = down s)) ∧
         ((List.range (n / 2)).filter fun s => occAt n I (up s)).length = numUp ∧
-        ((List.range (n / 2)).filter fun s => occAt n I (down s)).length = numDown := by
+        ((List.range (n / 2)).filter fun s => occAt n I (down s)).length = numDown :=
+  sz_indices_spec_fixed' sz n ne up down l h hm
+
+/-- `jw_sz_indices(sz, n, None, up_index, down_index)` (particle number not fixed), when it
+returns, enumerates each exactly once the indices `I < 2^n` occupying only up / down modes whose
+number of majority-spin particles exceeds the number of minority-spin particles by `|2 sz|`
+(majority = down for `sz < 0`, up otherwise) — i.e. all basis states of that `S_z`. -/
+theorem sz_indices_spec_free (sz : Rat) (n : Nat) (up down : Nat → Nat) (l : List Nat)
+    (h : jwSzIndices sz n none up down = .ok l) (hm : MapsOK n (n / 2) up down) :
+    let more := if (2 * sz).num < 0 then down else up
+    let less := if (2 * sz).num < 0 then up else down
+    (2 * sz).den = 1 ∧ l.Nodup ∧ ∀ I, I ∈ l ↔
+      I < 2 ^ n ∧
+      (∀ k, k < n → occAt n I k = true → ∃ s, s < n / 2 ∧ (k = more s ∨ k = less s)) ∧
+      ((List.range (n / 2)).filter fun s => occAt n I (more s)).length
+        = ((List.range (n / 2)).filter fun s => occAt n I (less s)).length + (2 * sz).num.natAbs := by
   unfold jwSzIndices at h
   split at h
   · cases h
   · split at h
     · cases h
     · next hden =>
-      simp only at h
-      split at h
-      · cases h
-      · next hcond =>
-        simp only [Except.ok.injEq] at h
-        subst h
-        simp only [Bool.or_eq_true, bne_iff_ne, ne_eq, decide_eq_true_eq, not_or, Decidable.not_not,
-          Int.not_lt] at hcond
-        refine ⟨(((ne : Int) + (2 * sz).num) / 2).toNat, ne - (((ne : Int) + (2 * sz).num) / 2).toNat,
-          by omega, by omega, by simpa using hden, nodup_szPairs_comb hm _ _, fun I => mem_szPairs_comb hm _ _ I⟩
+      simp only [Except.ok.injEq] at h
+      subst h
+      by_cases hneg : (2 * sz).num < 0
+      · simp only [hneg, if_true]
+        exact ⟨by simpa using hden, sz_free_branch hm.swap _⟩
+      · simp only [hneg, if_false]
+        exact ⟨by simpa using hden, sz_free_branch hm _⟩
 
 /-- the default maps `up_index(i) = 2 i`, `down_index(i) = 2 i + 1` are admissible on `2 · sites`
 qubits and cover every mode -/
@@ -92,6 +124,28 @@ theorem sz_maps_default (sites : Nat) :
     MapsOK (2 * sites) sites upIndex downIndex ∧
       ∀ k, k < 2 * sites → ∃ s, s < sites ∧ (k = upIndex s ∨ k = downIndex s) :=
   ⟨mapsOK_default sites, cover_default sites⟩
+
+/-- The Model's `sz_operator(sites)` (built with `+=` from number operators with coefficients
+`±1/2`) is diagonal in the Spec action with eigenvalue `(#up - #down)/2`. -/
+theorem sz_operator_diag (tol : Rat) (sites : Nat) (h1 : GQ.isSmall tol Model.C10.half = false)
+    (h2 : GQ.isSmall tol (-Model.C10.half) = false) (s t : Nat) :
+    melF (Model.C10.sz tol sites) t s = if t = s then
+      ⟨(((List.range sites).filter fun i => s.testBit (upIndex i)).length : Rat) * mkRat 1 2
+        - (((List.range sites).filter fun i => s.testBit (downIndex i)).length : Rat) * mkRat 1 2, 0⟩ else 0 := by
+  rw [melF_sz tol sites h1 h2]
+  split
+  · exact occSum_szList sites s
+  · rfl
+
+/-- Matrix level (`restrict_is_projection`, S_z part): every matrix index listed by
+`jw_sz_indices(sz, 2·sites, n_electrons)` (default index maps) is, through the bit reversal, an
+eigenstate of the `sz_operator` with eigenvalue `sz`. -/
+theorem sz_indices_eigen (tol : Rat) (sz : Rat) (sites ne : Nat) (l : List Nat)
+    (h : jwSzIndices sz (2 * sites) (some ne) upIndex downIndex = .ok l)
+    (h1 : GQ.isSmall tol Model.C10.half = false) (h2 : GQ.isSmall tol (-Model.C10.half) = false)
+    (I : Nat) (hI : I ∈ l) :
+    melF (Model.C10.sz tol sites) (maskOfIndex (2 * sites) I) (maskOfIndex (2 * sites) I) = ⟨sz, 0⟩ :=
+  sz_indices_eigen' tol sz sites ne l h h1 h2 I hI
 
 /-! ## jw_configuration_state / jw_hartree_fock_state: one mode-to-bit convention -/
 
@@ -133,13 +187,29 @@ theorem build_term_op_sound (t : Term) (d : Det) (s : Nat) (hag : Agree d s)
 theorem iterate_basis_reference_first (ref : Det) (level : Nat) (spin : Bool) :
     (iterateBasis ref level spin).head? = some ref := iterateBasis_head ref level spin
 
+/-- `_iterate_basis_(ref, level, spin_preserving=False)` yields, each exactly once, the
+determinants of the reference's length with the reference's particle number that vacate at most
+`level` orbitals of the reference (`vacated ref d`: occupied in `ref`, empty in `d`). -/
+theorem iterate_basis_spec_nospin (ref : Det) (level : Nat) :
+    (iterateBasis ref level false).Nodup ∧ ∀ d, d ∈ iterateBasis ref level false ↔
+      d.length = ref.length ∧ countTrue d = countTrue ref ∧ (vacated ref d).length ≤ level := by
+  obtain ⟨h1, h2⟩ := iterateBasis_nospin ref level
+  refine ⟨h1, fun d => ?_⟩
+  rw [h2 d]
+  constructor
+  · rintro ⟨a, b, c⟩; exact ⟨a, (same_number_iff ref d a).mpr b, c⟩
+  · rintro ⟨a, b, c⟩; exact ⟨a, (same_number_iff ref d a).mp b, c⟩
+
 /-! ## non-vacuity -/
 
 example : jwNumberIndices 2 3 = [3, 5, 6] := by decide
+example : iterateBasis [true, false, false] 1 false = [[true, false, false], [false, true, false], [false, false, true]] := by
+  decide
 example : jwSzIndices (1 / 2) 4 (some 1) upIndex downIndex = .ok [8, 2] := by decide +kernel
 example : (configuration_state_index [0, 2] 3 (by decide) (by decide)).1 = (by decide : configIndex [0, 2] 3 < 2 ^ 3) := rfl
 example : configIndex [0, 2] 3 = 5 ∧ maskOfIndex 3 5 = 5 ∧ configIndex [0] 3 = 4 ∧ maskOfIndex 3 4 = 1 := by decide
-example : GQ.isSmall Generated.eqTolerance 1 = false := by decide +kernel
+example : GQ.isSmall Generated.eqTolerance 1 = false ∧ GQ.isSmall Generated.eqTolerance Model.C10.half = false ∧
+    GQ.isSmall Generated.eqTolerance (-Model.C10.half) = false := by decide +kernel
 example : actFTerm [(2, 1), (0, 0)] 3 = some (1, 6) ∧ applyTermDet [(2, 1), (0, 0)] [true, true, false] = (1, [false, true, true]) := by
   decide
 
